@@ -434,10 +434,13 @@ def run(ctx):
             seen.add(c)
             ctx.violation(c, {"history": list(q), "item": str(e)[:80]}, e, o)
     ctx.cov["configuration_mutation_histories"] = len(seqs)
-    for spec in [dict(mode="Diffuse", spectrum="mono", cloud="none", optical=True, radio=True, n=60, tag="cli"), dict(mode="Target", spectrum="power", cloud="mono", optical=True, radio=True, n=150, tag="cli")]:
+    # (the last two are runs in which no trajectory survives: the command still writes the empty, self-describing table)
+    never = {"title": "never visible", "detector": {"name": "polar", "initial_position": {"latitude": 1.3962634015954636, "altitude": 33.0}}, "simulation": {"target": {"source_DEC": 1.3962634015954636}}}
+    for spec in [dict(mode="Diffuse", spectrum="mono", cloud="none", optical=True, radio=True, n=60, tag="cli"), dict(mode="Target", spectrum="power", cloud="mono", optical=True, radio=True, n=150, tag="cli"),
+                 dict(mode="Target", spectrum="power", cloud="mono", optical=True, radio=True, n=64, extra=never, tag="cli_zero_rows"), dict(mode="Diffuse", spectrum="mono", cloud="none", optical=True, radio=False, n=0, extra={"title": "nothing thrown"}, tag="cli_zero_rows")]:
         for stages in (False, True):
             v, n = judge_cli(spec, stages)
-            ctx.tick(max(n, 1), ("cli", spec["mode"], stages))
+            ctx.tick(max(n, 1), ("cli", spec["mode"], stages, spec["tag"]))
             for c, e, o in v:
                 ctx.violation(c, {"spec": spec, "item": str(e)[:80], "cli": True, "stages": stages}, e, o)
     spec = dict(mode="Diffuse", spectrum="mono", cloud="mono", optical=True, radio=True, n=60, tag="cli")
